@@ -350,9 +350,14 @@ theorem toInt32_id (i : Int) (h1 : -2147483648 ≤ i) (h2 : i < 2147483648) : to
 
 /-! ## 2. instructions -/
 
+/-- well-formed opcode token -/
+def OpWF (op : List Char) : Prop := op ≠ [] ∧ ' ' ∉ op
+
 /-- well-formed instruction: every field in the range the trace format can carry, and in the
-canonical form the parser produces (fields that are not printed are zero) -/
-structure Inst.WF (i : Inst) : Prop where
+    canonical form the parser produces (fields that are not printed are zero). `ko` = the reader it is meant for keeps the opcode: then the instruction
+    carries a well-formed opcode text; for the reader that dropped the opcode (`ko = false`) it is the
+    parsed form, `OpCode = nil`. -/
+structure Inst.WF (ko : Bool) (i : Inst) : Prop where
   pc_lo : 0 ≤ i.pc
   pc_hi : i.pc < 2147483648
   mask_lo : 0 ≤ i.mask
@@ -363,7 +368,7 @@ structure Inst.WF (i : Inst) : Prop where
   srcNum_hi : i.srcNum < 2147483648
   dst_known : ∀ t ∈ i.dst, knownReg t = true
   src_known : ∀ t ∈ i.src, knownReg t = true
-  hasOp : i.hasOp = false
+  op_ok : if ko then (∃ o, i.op = some o ∧ OpWF o) else i.op = none
   width_lo : -2147483648 ≤ i.width
   width_hi : i.width < 2147483648
   compress_lo : -2147483648 ≤ i.compress
@@ -378,9 +383,6 @@ structure Inst.WF (i : Inst) : Prop where
   canon0 : i.width = 0 → i.compress = 0 ∧ i.addr = 0 ∧ i.suffix1 = 0 ∧ i.suffix2 = []
   canon1 : i.compress ≠ 1 → i.suffix1 = 0
   canon2 : i.compress ≠ 2 → i.suffix2 = []
-
-/-- well-formed opcode token -/
-def OpWF (op : List Char) : Prop := op ≠ [] ∧ ' ' ∉ op
 
 theorem elemAt_of_eq (elems a : List (List Char)) (t : List Char) (b : List (List Char)) (i : Int)
     (he : elems = a ++ t :: b) (hi : i = a.length) : elemAt elems i = .ok t := by
@@ -408,18 +410,21 @@ theorem readRegs_ok (elems pre : List (List Char)) (base : Int) (hb : base = pre
       pure, Except.pure, if_true]
 
 /-- the register part of `extractInst`, on abstract tokens -/
-theorem extractToks_shape (la : Bool) (P M D op S : List Char) (dst src rest : List (List Char))
+theorem extractToks_shape (la ko : Bool) (P M D op S : List Char) (dst src rest : List (List Char))
     (hD : scanTok 10 32 D = dst.length) (hS : scanTok 10 32 S = src.length)
     (hdk : ∀ t ∈ dst, knownReg t = true) (hsk : ∀ t ∈ src, knownReg t = true) :
-    extractToks la ([P, M, D] ++ dst ++ [op, S] ++ src ++ rest) =
+    extractToks la ko ([P, M, D] ++ dst ++ [op, S] ++ src ++ rest) =
       memPart la { pc := scanTok 16 32 P, mask := scanTok 16 64 M, destNum := dst.length, dst := dst,
-                   srcNum := src.length, src := src } rest := by
+                   op := if ko then some op else none, srcNum := src.length, src := src } rest := by
   generalize he : [P, M, D] ++ dst ++ [op, S] ++ src ++ rest = elems
   have e0 : elemAt elems 0 = .ok P := elemAt_of_eq elems [] P (M :: D :: (dst ++ [op, S] ++ src ++ rest)) 0 (by simp [← he]) rfl
   have e1 : elemAt elems 1 = .ok M := elemAt_of_eq elems [P] M (D :: (dst ++ [op, S] ++ src ++ rest)) 1 (by simp [← he]) rfl
   have e2 : elemAt elems 2 = .ok D := elemAt_of_eq elems [P, M] D (dst ++ [op, S] ++ src ++ rest) 2 (by simp [← he]) rfl
   have r1 : readRegs elems 3 dst.length 0 = .ok dst :=
     readRegs_ok elems [P, M, D] 3 rfl dst [] ([op, S] ++ src ++ rest) (by simp [← he]) hdk
+  have eop : elemAt elems (3 + (dst.length : Int)) = .ok op :=
+    elemAt_of_eq elems ([P, M, D] ++ dst) op ([S] ++ src ++ rest) _ (by simp [← he])
+      (by simp; omega)
   have e3 : elemAt elems (4 + (dst.length : Int)) = .ok S :=
     elemAt_of_eq elems ([P, M, D] ++ dst ++ [op]) S (src ++ rest) _ (by simp [← he])
       (by simp; omega)
@@ -432,14 +437,14 @@ theorem extractToks_shape (la : Bool) (P M D op S : List Char) (dst src rest : L
     rw [← he]
     exact List.drop_left' (by simp; omega)
   unfold extractToks
-  simp only [e0, e1, e2, hD, Int.toNat_natCast, r1, e3, hS, r2, bind, Except.bind]
+  simp only [e0, e1, e2, hD, Int.toNat_natCast, r1, eop, e3, hS, r2, bind, Except.bind]
   have hlo : (5 + (dst.length : Int) + (src.length : Int)).toNat = 5 + dst.length + src.length := by
     omega
   have hc : (decide (5 + (dst.length : Int) + (src.length : Int) < 0) ||
       decide ((elems.length : Int) < 5 + (dst.length : Int) + (src.length : Int))) = false := by
     simp; omega
   rw [hc, hlo, hdrop]
-  rfl
+  cases ko <;> rfl
 
 theorem map_atoi_showInt (l : List Int) (h : ∀ x ∈ l, -2147483648 ≤ x ∧ x < 2147483648) :
     (l.map showInt).map (fun t => toInt32 (atoi t)) = l := by
@@ -465,11 +470,11 @@ theorem renderToks_eq (op : List Char) (i : Inst) :
       [op, showNat 10 i.src.length] ++ i.src ++ renderMem i := by
   simp [renderToks, renderMem]
 
-theorem memPart_render (pc mask dn : Int) (dst : List (List Char)) (sn : Int) (src : List (List Char))
-    (i : Inst) (wf : i.WF) :
-    memPart false { pc := pc, mask := mask, destNum := dn, dst := dst, srcNum := sn, src := src }
+theorem memPart_render (pc mask dn : Int) (dst : List (List Char)) (o : Option (List Char)) (sn : Int)
+    (src : List (List Char)) {ko : Bool} (i : Inst) (wf : i.WF ko) :
+    memPart false { pc := pc, mask := mask, destNum := dn, dst := dst, op := o, srcNum := sn, src := src }
         (renderMem i) =
-      .ok { pc := pc, mask := mask, destNum := dn, dst := dst, hasOp := false, srcNum := sn, src := src,
+      .ok { pc := pc, mask := mask, destNum := dn, dst := dst, op := o, srcNum := sn, src := src,
             width := i.width, compress := i.compress, addr := i.addr, suffix1 := i.suffix1,
             suffix2 := i.suffix2, imm := i.imm } := by
   have hW := scanTok_showInt i.width wf.width_lo wf.width_hi
@@ -518,8 +523,9 @@ theorem memPart_render (pc mask dn : Int) (dst : List (List Char)) (sn : Int) (s
         simp [hI, hC, hA, hc1, hc2, s0, t0, hW, hw]
 
 /-- **instruction round trip on tokens** (fixed reader, `%v` for the address) -/
-theorem extractToks_render (op : List Char) (i : Inst) (wf : i.WF) :
-    extractToks false (renderToks op i) = .ok i := by
+theorem extractToks_render (ko : Bool) (op : List Char) (i : Inst) (wf : i.WF ko)
+    (ho : ko = true → i.op = some op) :
+    extractToks false ko (renderToks op i) = .ok i := by
   have hdl : i.dst.length < 2147483648 := by
     have h1 := wf.destNum_eq
     have h2 := wf.destNum_hi
@@ -538,9 +544,13 @@ theorem extractToks_render (op : List Char) (i : Inst) (wf : i.WF) :
     have h2 := wf.mask_hi
     rw [scanTok_pad_hex64 8 i.mask.toNat (by omega)]
     omega
-  rw [renderToks_eq, extractToks_shape false _ _ _ op _ i.dst i.src (renderMem i)
+  have hop : (if ko then some op else none) = i.op := by
+    cases ko with
+    | true => simp [ho rfl]
+    | false => have := wf.op_ok; simp at this; simp [this]
+  rw [renderToks_eq, extractToks_shape false ko _ _ _ op _ i.dst i.src (renderMem i)
       (scanTok_showNat _ hdl) (scanTok_showNat _ hsl) wf.dst_known wf.src_known,
-    memPart_render _ _ _ _ _ _ i wf, hP, hM, ← wf.destNum_eq, ← wf.srcNum_eq, ← wf.hasOp]
+    memPart_render _ _ _ _ _ _ _ i wf, hP, hM, ← wf.destNum_eq, ← wf.srcNum_eq, hop]
 
 /-- a concrete memory instruction with a non-zero address -/
 def legacyWitness : Inst :=
@@ -550,21 +560,21 @@ def legacyWitness : Inst :=
     addr := 4096
     imm := 7 }
 
-theorem legacyWitness_WF : legacyWitness.WF := by
+theorem legacyWitness_WF : legacyWitness.WF false := by
   constructor <;> simp [legacyWitness]
 
 /-- the legacy reader (`%x` on a `0x…` token) reads address 0 -/
 theorem legacy_reads_zero :
-    extractToks true (renderToks "OP".toList legacyWitness) = .ok { legacyWitness with addr := 0 } := by
-  have h : (extractToks true (renderToks "OP".toList legacyWitness)).toOption =
+    extractToks true false (renderToks "OP".toList legacyWitness) = .ok { legacyWitness with addr := 0 } := by
+  have h : (extractToks true false (renderToks "OP".toList legacyWitness)).toOption =
       some { legacyWitness with addr := 0 } := by decide
-  cases hx : extractToks true (renderToks "OP".toList legacyWitness) with
+  cases hx : extractToks true false (renderToks "OP".toList legacyWitness) with
   | error e => rw [hx] at h; simp [Except.toOption] at h
   | ok v => rw [hx] at h; simp [Except.toOption] at h; rw [h]
 
 /-- **legacy refutation**: the pre-fix reader does not round-trip -/
 theorem legacy_not_roundtrip :
-    extractToks true (renderToks "OP".toList legacyWitness) ≠ .ok legacyWitness := by
+    extractToks true false (renderToks "OP".toList legacyWitness) ≠ .ok legacyWitness := by
   rw [legacy_reads_zero]
   intro h
   have := congrArg (fun e => match e with | .ok (x : Inst) => x.addr | .error _ => 0) h
@@ -805,29 +815,29 @@ end Tokeniser
 /-! ## 3. thread blocks -/
 
 /-- the tokeniser recovers the rendered tokens of every well-formed instruction -/
-def SplitOK (op : List Char) : Prop :=
-  ∀ i : Inst, i.WF → splitTokens (renderInst op i) = renderToks op i
+def SplitOK (ko : Bool) (op : Inst → List Char) : Prop :=
+  ∀ i : Inst, i.WF ko → splitTokens (renderInst op i) = renderToks (op i) i ∧ (ko = true → i.op = some (op i))
 
-theorem extractInst_render_of_split (op : List Char) (hop : SplitOK op) (i : Inst) (wf : i.WF) :
-    extractInst false (renderInst op i) = .ok i := by
+theorem extractInst_render_of_split (ko : Bool) (op : Inst → List Char) (hop : SplitOK ko op) (i : Inst)
+    (wf : i.WF ko) : extractInst false ko (renderInst op i) = .ok i := by
   unfold extractInst
-  rw [hop i wf, extractToks_render op i wf]
+  rw [(hop i wf).1, extractToks_render ko (op i) i wf (hop i wf).2]
 
-structure WarpT.WF (w : WarpT) : Prop where
+structure WarpT.WF (ko : Bool) (w : WarpT) : Prop where
   id_lo : -2147483648 ≤ w.id
   id_hi : w.id < 2147483648
   count_eq : w.count = w.insts.length
   count_hi : w.count < 2147483648
-  insts_wf : ∀ i ∈ w.insts, i.WF
+  insts_wf : ∀ i ∈ w.insts, i.WF ko
 
-structure TBT.WF (t : TBT) : Prop where
+structure TBT.WF (ko : Bool) (t : TBT) : Prop where
   x_lo : -2147483648 ≤ t.id.1
   x_hi : t.id.1 < 2147483648
   y_lo : -2147483648 ≤ t.id.2.1
   y_hi : t.id.2.1 < 2147483648
   z_lo : -2147483648 ≤ t.id.2.2
   z_hi : t.id.2.2 < 2147483648
-  warps_wf : ∀ w ∈ t.warps, w.WF
+  warps_wf : ∀ w ∈ t.warps, w.WF ko
 
 def nonEmpty (l : List Char) : Bool := !l.isEmpty
 
@@ -836,12 +846,12 @@ theorem joinSp_ne_nil (t : List Char) (ts : List (List Char)) (h : t ≠ []) : j
   | nil => simpa [joinSp] using h
   | cons u us => simp [joinSp, h]
 
-theorem renderInst_ne_nil (op : List Char) (i : Inst) : renderInst op i ≠ [] := by
+theorem renderInst_ne_nil (op : Inst → List Char) (i : Inst) : renderInst op i ≠ [] := by
   unfold renderInst
   rw [renderToks_eq]
   exact joinSp_ne_nil _ _ (pad_ne_nil 4 _ (showNat_ne_nil 16 _))
 
-theorem filter_renderInsts (op : List Char) (l : List Inst) :
+theorem filter_renderInsts (op : Inst → List Char) (l : List Inst) :
     (l.map (renderInst op)).filter (fun l => !l.isEmpty) = l.map (renderInst op) := by
   rw [List.filter_eq_self]
   intro x hx
@@ -849,16 +859,16 @@ theorem filter_renderInsts (op : List Char) (l : List Inst) :
   simp [isEmpty_false_of_ne_nil _ (renderInst_ne_nil op i)]
 
 /-- feeding the instruction lines of a warp -/
-theorem feed_insts (op : List Char) (hop : SplitOK op) :
-    ∀ (is : List Inst) (done : List TBT) (tb : TBT) (wp : WarpT), is ≠ [] → (∀ i ∈ is, i.WF) →
-      (is.map (renderInst op)).foldl (feed false) ⟨.readInsts is.length, done, tb, wp, none⟩ =
+theorem feed_insts (ko : Bool) (op : Inst → List Char) (hop : SplitOK ko op) :
+    ∀ (is : List Inst) (done : List TBT) (tb : TBT) (wp : WarpT), is ≠ [] → (∀ i ∈ is, i.WF ko) →
+      (is.map (renderInst op)).foldl (feed false ko) ⟨.readInsts is.length, done, tb, wp, none⟩ =
         ⟨.inTB, done, { tb with warps := tb.warps ++ [{ wp with insts := wp.insts ++ is }] }, {}, none⟩ := by
   intro is
   induction is with
   | nil => intro _ _ _ h; exact absurd rfl h
   | cons i r ih =>
     intro done tb wp _ hwf
-    have hi := extractInst_render_of_split op hop i (hwf i List.mem_cons_self)
+    have hi := extractInst_render_of_split ko op hop i (hwf i List.mem_cons_self)
     cases r with
     | nil =>
       simp [feed, hi, closeWarp]
@@ -866,13 +876,13 @@ theorem feed_insts (op : List Char) (hop : SplitOK op) :
       have := ih done tb { wp with insts := wp.insts ++ [i] } (by simp)
         (fun x hx => hwf x (List.mem_cons_of_mem _ hx))
       rw [List.map_cons, List.foldl_cons]
-      have hstep : feed false ⟨.readInsts (i :: j :: r').length, done, tb, wp, none⟩ (renderInst op i) =
+      have hstep : feed false ko ⟨.readInsts (i :: j :: r').length, done, tb, wp, none⟩ (renderInst op i) =
           ⟨.readInsts (j :: r').length, done, tb, { wp with insts := wp.insts ++ [i] }, none⟩ := by
         simp [feed, hi]
       rw [hstep, this]
       simp
 
-theorem filter_renderWarp (op : List Char) (w : WarpT) :
+theorem filter_renderWarp (op : Inst → List Char) (w : WarpT) :
     (renderWarp op w).filter (fun l => !l.isEmpty) =
       ("warp = ".toList ++ showInt w.id) :: ("insts = ".toList ++ showNat 10 w.insts.length) ::
         w.insts.map (renderInst op) := by
@@ -887,34 +897,34 @@ theorem filter_renderWarp (op : List Char) (w : WarpT) :
 
 /-! single steps of the line scanner, on abstract lines -/
 
-theorem feed_seekTB_skip (la : Bool) (done : List TBT) (tb : TBT) (wp : WarpT) (l : List Char)
+theorem feed_seekTB_skip (la ko : Bool) (done : List TBT) (tb : TBT) (wp : WarpT) (l : List Char)
     (hp : hasPrefix "thread block" l = false) :
-    feed la ⟨.seekTB, done, tb, wp, none⟩ l = ⟨.seekTB, done, tb, wp, none⟩ := by
+    feed la ko ⟨.seekTB, done, tb, wp, none⟩ l = ⟨.seekTB, done, tb, wp, none⟩ := by
   unfold feed
   simp [hp]
 
-theorem feed_seekTB_open (la : Bool) (done : List TBT) (tb : TBT) (wp : WarpT) (l : List Char)
+theorem feed_seekTB_open (la ko : Bool) (done : List TBT) (tb : TBT) (wp : WarpT) (l : List Char)
     (hp : hasPrefix "thread block" l = true) :
-    feed la ⟨.seekTB, done, tb, wp, none⟩ l = ⟨.inTB, done, { id := scanTBId l }, wp, none⟩ := by
+    feed la ko ⟨.seekTB, done, tb, wp, none⟩ l = ⟨.inTB, done, { id := scanTBId l }, wp, none⟩ := by
   unfold feed
   simp [hp]
 
-theorem feed_inTB_warp (la : Bool) (done : List TBT) (tb : TBT) (wp : WarpT) (l : List Char)
+theorem feed_inTB_warp (la ko : Bool) (done : List TBT) (tb : TBT) (wp : WarpT) (l : List Char)
     (hp : hasPrefix "warp" l = true) :
-    feed la ⟨.inTB, done, tb, wp, none⟩ l =
+    feed la ko ⟨.inTB, done, tb, wp, none⟩ l =
       ⟨.seekInsts, done, tb, { id := scanAfter "warp = " l }, none⟩ := by
   unfold feed
   simp [hp]
 
-theorem feed_inTB_close (la : Bool) (done : List TBT) (tb : TBT) (wp : WarpT) (l : List Char)
+theorem feed_inTB_close (la ko : Bool) (done : List TBT) (tb : TBT) (wp : WarpT) (l : List Char)
     (hp : hasPrefix "warp" l = false) (hp2 : hasPrefix "thread block" l = false) :
-    feed la ⟨.inTB, done, tb, wp, none⟩ l = ⟨.seekTB, done ++ [tb], {}, wp, none⟩ := by
+    feed la ko ⟨.inTB, done, tb, wp, none⟩ l = ⟨.seekTB, done ++ [tb], {}, wp, none⟩ := by
   unfold feed
   simp [hp, hp2]
 
-theorem feed_seekInsts (la : Bool) (done : List TBT) (tb : TBT) (wp : WarpT) (l : List Char)
+theorem feed_seekInsts (la ko : Bool) (done : List TBT) (tb : TBT) (wp : WarpT) (l : List Char)
     (hp : hasPrefix "insts" l = true) :
-    feed la ⟨.seekInsts, done, tb, wp, none⟩ l =
+    feed la ko ⟨.seekInsts, done, tb, wp, none⟩ l =
       if (scanAfter "insts = " l).toNat = 0 then
         ⟨.inTB, done, { tb with warps := tb.warps ++ [{ wp with count := scanAfter "insts = " l }] }, {}, none⟩
       else ⟨.readInsts (scanAfter "insts = " l).toNat, done, tb,
@@ -923,9 +933,9 @@ theorem feed_seekInsts (la : Bool) (done : List TBT) (tb : TBT) (wp : WarpT) (l 
   simp [hp, closeWarp]
 
 /-- feeding one rendered warp inside a block appends it to the block -/
-theorem feed_warp (op : List Char) (hop : SplitOK op) (w : WarpT) (wf : w.WF)
+theorem feed_warp (ko : Bool) (op : Inst → List Char) (hop : SplitOK ko op) (w : WarpT) (wf : w.WF ko)
     (done : List TBT) (tb : TBT) (wp : WarpT) :
-    ((renderWarp op w).filter (fun l => !l.isEmpty)).foldl (feed false) ⟨.inTB, done, tb, wp, none⟩ =
+    ((renderWarp op w).filter (fun l => !l.isEmpty)).foldl (feed false ko) ⟨.inTB, done, tb, wp, none⟩ =
       ⟨.inTB, done, { tb with warps := tb.warps ++ [w] }, {}, none⟩ := by
   rw [filter_renderWarp]
   have hlen : w.insts.length < 2147483648 := by
@@ -936,7 +946,7 @@ theorem feed_warp (op : List Char) (hop : SplitOK op) (w : WarpT) (wf : w.WF)
     scanTok_showInt w.id wf.id_lo wf.id_hi
   have hs2 : scanAfter "insts = " ("insts = ".toList ++ showNat 10 w.insts.length) = w.insts.length :=
     scanTok_showNat w.insts.length hlen
-  rw [List.foldl_cons, feed_inTB_warp _ _ _ _ _ rfl, hs, List.foldl_cons, feed_seekInsts _ _ _ _ _ rfl, hs2]
+  rw [List.foldl_cons, feed_inTB_warp _ _ _ _ _ _ rfl, hs, List.foldl_cons, feed_seekInsts _ _ _ _ _ _ rfl, hs2]
   obtain ⟨id, count, insts⟩ := w
   have hc : count = insts.length := wf.count_eq
   subst hc
@@ -945,12 +955,12 @@ theorem feed_warp (op : List Char) (hop : SplitOK op) (w : WarpT) (wf : w.WF)
   | cons i r =>
     have hne : ¬ (((i :: r).length : Nat) : Int).toNat = 0 := by simp
     simp only []
-    rw [if_neg hne, Int.toNat_natCast, feed_insts op hop (i :: r) done tb _ (by simp) wf.insts_wf]
+    rw [if_neg hne, Int.toNat_natCast, feed_insts ko op hop (i :: r) done tb _ (by simp) wf.insts_wf]
     simp
 
-theorem feed_warps (op : List Char) (hop : SplitOK op) :
-    ∀ (ws : List WarpT) (done : List TBT) (tb : TBT), (∀ w ∈ ws, w.WF) →
-      (((ws.map (renderWarp op)).flatten).filter (fun l => !l.isEmpty)).foldl (feed false)
+theorem feed_warps (ko : Bool) (op : Inst → List Char) (hop : SplitOK ko op) :
+    ∀ (ws : List WarpT) (done : List TBT) (tb : TBT), (∀ w ∈ ws, w.WF ko) →
+      (((ws.map (renderWarp op)).flatten).filter (fun l => !l.isEmpty)).foldl (feed false ko)
           ⟨.inTB, done, tb, {}, none⟩ =
         ⟨.inTB, done, { tb with warps := tb.warps ++ ws }, {}, none⟩ := by
   intro ws
@@ -959,7 +969,7 @@ theorem feed_warps (op : List Char) (hop : SplitOK op) :
   | cons w r ih =>
     intro done tb hwf
     rw [List.map_cons, List.flatten_cons, List.filter_append, List.foldl_append,
-      feed_warp op hop w (hwf w List.mem_cons_self),
+      feed_warp ko op hop w (hwf w List.mem_cons_self),
       ih done _ (fun x hx => hwf x (List.mem_cons_of_mem _ hx))]
     simp
 
@@ -980,7 +990,7 @@ theorem scanTBId_render (a b c : Int) (ha1 : -2147483648 ≤ a) (ha2 : a < 21474
   simp only []
   rw [scanTok_showInt c hc1 hc2]
 
-theorem filter_renderTB (op : List Char) (t : TBT) :
+theorem filter_renderTB (op : Inst → List Char) (t : TBT) :
     (renderTB op t).filter (fun l => !l.isEmpty) =
       "#BEGIN_TB".toList ::
       ("thread block = ".toList ++ showInt t.id.1 ++ [','] ++ showInt t.id.2.1 ++ [','] ++ showInt t.id.2.2) ::
@@ -990,20 +1000,20 @@ theorem filter_renderTB (op : List Char) (t : TBT) :
   rfl
 
 /-- feeding one rendered thread block while looking for a block appends it to the finished blocks -/
-theorem feed_TB (op : List Char) (hop : SplitOK op) (t : TBT) (wf : t.WF) (done : List TBT) :
-    ((renderTB op t).filter (fun l => !l.isEmpty)).foldl (feed false) ⟨.seekTB, done, {}, {}, none⟩ =
+theorem feed_TB (ko : Bool) (op : Inst → List Char) (hop : SplitOK ko op) (t : TBT) (wf : t.WF ko) (done : List TBT) :
+    ((renderTB op t).filter (fun l => !l.isEmpty)).foldl (feed false ko) ⟨.seekTB, done, {}, {}, none⟩ =
       ⟨.seekTB, done ++ [t], {}, {}, none⟩ := by
-  rw [filter_renderTB, List.foldl_cons, feed_seekTB_skip _ _ _ _ _ (by decide), List.foldl_cons,
-    feed_seekTB_open _ _ _ _ _ rfl,
+  rw [filter_renderTB, List.foldl_cons, feed_seekTB_skip _ _ _ _ _ _ (by decide), List.foldl_cons,
+    feed_seekTB_open _ _ _ _ _ _ rfl,
     scanTBId_render _ _ _ wf.x_lo wf.x_hi wf.y_lo wf.y_hi wf.z_lo wf.z_hi,
-    List.foldl_append, feed_warps op hop t.warps done _ wf.warps_wf, List.foldl_cons, List.foldl_nil,
-    feed_inTB_close _ _ _ _ _ (by decide) (by decide)]
+    List.foldl_append, feed_warps ko op hop t.warps done _ wf.warps_wf, List.foldl_cons, List.foldl_nil,
+    feed_inTB_close _ _ _ _ _ _ (by decide) (by decide)]
   obtain ⟨⟨x, y, z⟩, ws⟩ := t
   simp
 
-theorem feed_TBs (op : List Char) (hop : SplitOK op) :
-    ∀ (ts : List TBT) (done : List TBT), (∀ t ∈ ts, t.WF) →
-      (((ts.map (renderTB op)).flatten).filter (fun l => !l.isEmpty)).foldl (feed false)
+theorem feed_TBs (ko : Bool) (op : Inst → List Char) (hop : SplitOK ko op) :
+    ∀ (ts : List TBT) (done : List TBT), (∀ t ∈ ts, t.WF ko) →
+      (((ts.map (renderTB op)).flatten).filter (fun l => !l.isEmpty)).foldl (feed false ko)
           ⟨.seekTB, done, {}, {}, none⟩ =
         ⟨.seekTB, done ++ ts, {}, {}, none⟩ := by
   intro ts
@@ -1012,20 +1022,20 @@ theorem feed_TBs (op : List Char) (hop : SplitOK op) :
   | cons t r ih =>
     intro done hwf
     rw [List.map_cons, List.flatten_cons, List.filter_append, List.foldl_append,
-      feed_TB op hop t (hwf t List.mem_cons_self),
+      feed_TB ko op hop t (hwf t List.mem_cons_self),
       ih _ (fun x hx => hwf x (List.mem_cons_of_mem _ hx))]
     simp
 
 /-- **body round trip**, relative to the tokeniser recovering the rendered tokens -/
-theorem parseBody_render_of_split (op : List Char) (hop : SplitOK op) (ts : List TBT)
-    (hwf : ∀ t ∈ ts, t.WF) : parseBody false (renderBody op ts) = .ok ts := by
+theorem parseBody_render_of_split (ko : Bool) (op : Inst → List Char) (hop : SplitOK ko op) (ts : List TBT)
+    (hwf : ∀ t ∈ ts, t.WF ko) : parseBody false ko (renderBody op ts) = .ok ts := by
   unfold parseBody renderBody
   have f1 : List.filter (fun l : List Char => !l.isEmpty)
       ("#traces format = …".toList :: [] :: (ts.map (renderTB op)).flatten) =
       "#traces format = …".toList :: List.filter (fun l : List Char => !l.isEmpty)
         ((ts.map (renderTB op)).flatten) := rfl
   have h0 : ({} : PState) = ⟨.seekTB, [], {}, {}, none⟩ := rfl
-  rw [f1, List.foldl_cons, h0, feed_seekTB_skip _ _ _ _ _ (by decide), feed_TBs op hop ts [] hwf]
+  rw [f1, List.foldl_cons, h0, feed_seekTB_skip _ _ _ _ _ _ (by decide), feed_TBs ko op hop ts [] hwf]
   simp [finish]
 
 /-! ## 4. unconditional versions: rendered tokens are non-empty and space-free -/
@@ -1067,7 +1077,7 @@ theorem tokOK_knownReg (t : List Char) (h : knownReg t = true) : TokOK t := by
     subst this
     exact ⟨by decide, by decide⟩
 
-theorem renderToks_tokOK (op : List Char) (hop : OpWF op) (i : Inst) (wf : i.WF) :
+theorem renderToks_tokOK {ko : Bool} (op : List Char) (hop : OpWF op) (i : Inst) (wf : i.WF ko) :
     ∀ t ∈ renderToks op i, TokOK t := by
   intro t ht
   rw [renderToks_eq] at ht
@@ -1099,29 +1109,51 @@ theorem renderToks_tokOK (op : List Char) (hop : OpWF op) (i : Inst) (wf : i.WF)
             · simp at h
     · subst h; exact tokOK_showInt _
 
-theorem splitOK_of_opWF (op : List Char) (hop : OpWF op) : SplitOK op := by
+/-- constant opcode token, reader that drops the opcode -/
+theorem splitOK_const (o : List Char) (hop : OpWF o) : SplitOK false (fun _ => o) := by
   intro i wf
+  refine ⟨?_, fun h => by cases h⟩
   unfold renderInst
-  exact splitTokens_joinSp _ (fun t ht => (renderToks_tokOK op hop i wf t ht).1)
-    (fun t ht => (renderToks_tokOK op hop i wf t ht).2)
+  exact splitTokens_joinSp _ (fun t ht => (renderToks_tokOK o hop i wf t ht).1)
+    (fun t ht => (renderToks_tokOK o hop i wf t ht).2)
 
-/-- **instruction round trip on lines** -/
-theorem extractInst_render (op : List Char) (hop : OpWF op) (i : Inst) (wf : i.WF) :
-    extractInst false (renderInst op i) = .ok i :=
-  extractInst_render_of_split op (splitOK_of_opWF op hop) i wf
+/-- every instruction rendered with its own opcode, reader that keeps the opcode -/
+theorem splitOK_opText : SplitOK true opText := by
+  intro i wf
+  obtain ⟨o, ho, hw⟩ : ∃ o, i.op = some o ∧ OpWF o := by simpa using wf.op_ok
+  have ht : opText i = o := by simp [opText, ho]
+  refine ⟨?_, fun _ => by rw [ht]; exact ho⟩
+  unfold renderInst
+  rw [ht]
+  exact splitTokens_joinSp _ (fun t ht => (renderToks_tokOK o hw i wf t ht).1)
+    (fun t ht => (renderToks_tokOK o hw i wf t ht).2)
 
-/-- **body round trip** -/
-theorem parseBody_render (op : List Char) (hop : OpWF op) (ts : List TBT) (hwf : ∀ t ∈ ts, t.WF) :
-    parseBody false (renderBody op ts) = .ok ts :=
-  parseBody_render_of_split op (splitOK_of_opWF op hop) ts hwf
+/-- **instruction round trip on lines, repaired reader**: the opcode survives -/
+theorem extractInst_render (i : Inst) (wf : i.WF true) :
+    extractInst false true (renderInst opText i) = .ok i :=
+  extractInst_render_of_split true opText splitOK_opText i wf
+
+/-- **body round trip, repaired reader** -/
+theorem parseBody_render (ts : List TBT) (hwf : ∀ t ∈ ts, t.WF true) :
+    parseBody false true (renderBody opText ts) = .ok ts :=
+  parseBody_render_of_split true opText splitOK_opText ts hwf
+
+/-- instruction round trip of the reader that dropped the opcode: any opcode token parses to `OpCode = nil` -/
+theorem extractInst_render_noop (op : List Char) (hop : OpWF op) (i : Inst) (wf : i.WF false) :
+    extractInst false false (renderInst (fun _ => op) i) = .ok i :=
+  extractInst_render_of_split false _ (splitOK_const op hop) i wf
+
+theorem parseBody_render_noop (op : List Char) (hop : OpWF op) (ts : List TBT) (hwf : ∀ t ∈ ts, t.WF false) :
+    parseBody false false (renderBody (fun _ => op) ts) = .ok ts :=
+  parseBody_render_of_split false _ (splitOK_const op hop) ts hwf
 
 theorem opWF_OP : OpWF "OP".toList := ⟨by decide, by decide⟩
 
 /-- **legacy refutation on lines**: the pre-fix reader does not round-trip the rendered line -/
 theorem legacy_not_roundtrip_line :
-    extractInst true (renderInst "OP".toList legacyWitness) ≠ .ok legacyWitness := by
+    extractInst true false (renderInst (fun _ => "OP".toList) legacyWitness) ≠ .ok legacyWitness := by
   unfold extractInst
-  rw [splitOK_of_opWF _ opWF_OP legacyWitness legacyWitness_WF]
+  rw [(splitOK_const _ opWF_OP legacyWitness legacyWitness_WF).1]
   exact legacy_not_roundtrip
 
 end C20
